@@ -46,7 +46,7 @@ def run(ctx):
 
     storage = {"i": 0}
 
-    def attempt(mk, n, p, nan):
+    def attempt(mk, n, p, nan, min_len=None):
         """-> ('completed' | 'ValueError' | 'other:<Class>', stage, message)"""
         stage = "construct"
         try:
@@ -85,11 +85,30 @@ def run(ctx):
                 # (object-dtype columns are outside the numeric dtypes the properties quantify over: PELT(GaussianCovCost) raises AttributeError
                 #  inside np.cov on them -- noted in DESIGN.md, not part of this grid)
                 ctx.count("storage", ["Float64", "Int64+float64"][kind_s])
+            # "runs" also when the fitted detector is applied to ANOTHER valid series: every third attempt predicts a longer series (the rows of X followed by its
+            # first rows again) as a frame; and, when the columns are plain float64 without missing values, a second detector is fitted on the bare ARRAY and applied to
+            # a longer and (if the configuration's minimum length allows) a shorter bare array
+            Xnew = X
+            extra = []
+            if n > 0 and storage["i"] % 3 == 1:
+                Xnew = pd.concat([X, X.iloc[: 5 + storage["i"] % 4]], ignore_index=True)
+                ctx.count("applied_to", "another series (frame)")
+            if n > 0 and (storage["i"] % 3 == 1 or (min_len is not None and n >= min_len + 6)) and all(str(t) == "float64" for t in X.dtypes) and not nan:
+                extra = [np.vstack([X.to_numpy(), X.to_numpy()[:5]])] + ([X.to_numpy()[: n - 4].copy()] if min_len is not None and n >= min_len + 6 else [])
             with time_limit(10):
                 stage = "fit"
                 d.fit(X)
                 stage = "predict"
-                y = d.predict(X)
+                y = d.predict(Xnew)
+                if extra:
+                    stage = "predict on another array"
+                    d2 = mk().fit(X.to_numpy().copy())
+                    for Xe in extra:
+                        ctx.count("applied_to", "another series (arrays)")
+                        try:
+                            d2.predict(Xe)
+                        except ValueError as ex:
+                            return "other:ValueError", stage, f"fitted on an array of {n} rows, a valid array of {len(Xe)} rows is rejected: {str(ex)[:60]}"
             if not (isinstance(y, pd.DataFrame) and "ilocs" in y.columns and isinstance(y.index, pd.RangeIndex)):
                 return "other:MalformedOutput", stage, str(type(y))
             # integer locations also when nothing is detected: int64 changepoints, or left-closed int64 intervals
@@ -112,7 +131,7 @@ def run(ctx):
         ns = sorted(set([max(0, min_len - 2), max(0, min_len - 1), min_len, min_len + 1, min_len + 6] + ([] if quick else [min_len + 2, min_len + 3])))
         for n in ns:
             for nan in ([False, True] if (n >= min_len and n > 0 and (not quick or n in (min_len, min_len + 6))) else [False]):
-                res, stage, msg = attempt(mk, n, p, nan)
+                res, stage, msg = attempt(mk, n, p, nan, min_len)
                 inp = {"detector": det_name, "params": params, "p": p, "n": n, "nan": nan, "outcome": res, "stage": stage, "message": msg}
                 ctx.count("detector", det_name)
                 ctx.count("outcome", res.split(":")[0] + "@" + stage)
